@@ -4,6 +4,7 @@ import (
 	"context"
 	"encoding/json"
 	"fmt"
+	"math"
 	"reflect"
 	"regexp"
 	"sort"
@@ -33,6 +34,7 @@ type contentPhase struct {
 	Merges      int      `json:"merges"`
 	MergeFiles  int      `json:"merge_files"`
 	MaxFileSize int      `json:"max_file_size"`
+	ConcMerge   int      `json:"concurrent_merges,omitempty"` // Merge calls issued by a second actor while batches are being ingested
 }
 
 type contentWorkload struct {
@@ -156,6 +158,7 @@ func genContentWorkload(w *Tape) *contentWorkload {
 			Merges:      []int{0, 0, 1, 2}[w.Draw(4)],
 			MergeFiles:  w.Range(2, 6),
 			MaxFileSize: []int{1500, 20000, 1 << 30}[w.Draw(3)],
+			ConcMerge:   []int{0, 0, 0, 1, 2, 3}[w.Draw(6)],
 		}
 		for _, k := range genMinMaxKeys {
 			if w.Draw(3) != 0 {
@@ -232,6 +235,24 @@ func (st *contentState) writer() {
 		eng.Start()
 		var chans []chan error
 		var ids [][]string
+		mergerDone := make(chan struct{})
+		if ph.ConcMerge > 0 {
+			// Merge shares per-engine state with the ingest actor (codec pools, scratch): let it
+			// overlap the indexing of incoming batches.
+			r.Probe("content.merge-overlapping-ingest")
+			simrt.GoNamed(fmt.Sprintf("merger%d", pi), func() {
+				defer close(mergerDone)
+				for m := 0; m < ph.ConcMerge; m++ {
+					simrt.Gate("op", fmt.Sprintf("phase%d concurrent merge%d", pi, m), nil)
+					stats, err := eng.Merge(WithTag(context.Background(), fmt.Sprintf("cmerge-%d-%d", pi, m)))
+					if err == nil && stats != nil && stats.FilesProcessed > 0 {
+						r.Probe("content.merge-did-work")
+					}
+				}
+			})
+		} else {
+			close(mergerDone)
+		}
 		for bi, batch := range ph.Batches {
 			simrt.Gate("op", fmt.Sprintf("phase%d batch%d", pi, bi), nil)
 			var rows []map[string]any
@@ -281,6 +302,7 @@ func (st *contentState) writer() {
 				r.Logf("writer: batch %v answered %v", ids[i], err)
 			}
 		}
+		<-mergerDone
 		for m := 0; m < ph.Merges; m++ {
 			simrt.Gate("op", fmt.Sprintf("phase%d merge%d", pi, m), nil)
 			stats, err := eng.Merge(WithTag(context.Background(), fmt.Sprintf("merge-%d-%d", pi, m)))
@@ -434,6 +456,21 @@ func RunContent(r *Run, variant string) {
 	for i := 0; i < total; i++ {
 		id := fmt.Sprintf("r%03d", i)
 		row := genRow(w, id)
+		// Near neighbours: a value that differs from the previous row's by a fraction or by one
+		// lands in the same block as its neighbour and moves (or must move) a range bound by the
+		// smallest possible amount — where incremental range maintenance goes wrong.
+		if i > 0 && w.Draw(4) == 0 {
+			prev := st.rows[i-1].Row
+			k := genMinMaxKeys[w.Draw(len(genMinMaxKeys))]
+			if pv, ok := numExact(prev[k]); ok {
+				if f, _ := pv.Float64(); math.Abs(f) < 1e15 {
+					row[k] = f + []float64{0.5, -0.5, 0.25, 1, -1, 0.999}[w.Draw(6)]
+					if w.Bool() {
+						row["p"] = prev["p"]
+					}
+				}
+			}
+		}
 		raw, err := json.Marshal(row)
 		if err != nil {
 			row = map[string]any{"_id": id, "msg": "fallback"}
@@ -461,6 +498,12 @@ func RunContent(r *Run, variant string) {
 	r.Faults.Off = true
 	r.MaxSteps = 120000
 	simrt.SetMode(simrt.ModeCoarse)
+	if wl.TokYield > 0 {
+		// The store history is built with the tokenizer as the only yield site: indexing a row
+		// can be descheduled in the middle (by user code) while a concurrent Merge indexes its own.
+		simrt.SetYieldEnabled(func(site string) bool { return site == "user.tokenizer" })
+		simrt.SetMode(simrt.ModeFine)
+	}
 	r.OnStep = st.checkNewFiles
 
 	// ---- phase 1: build the store history ----
@@ -488,9 +531,9 @@ func RunContent(r *Run, variant string) {
 	}
 	if r.S.Draw(3) == 0 || wl.TokYield > 0 {
 		// Fine-grained interleaving of concurrent block scans (pooled buffers, batching, handles).
-		simrt.YieldEnabled = func(site string) bool {
+		simrt.SetYieldEnabled(func(site string) bool {
 			return strings.HasPrefix(site, "query_") || strings.HasPrefix(site, "file_format") || strings.HasPrefix(site, "codec_pool") || site == "start" || site == "user.tokenizer"
-		}
+		})
 		simrt.SetMode(simrt.ModeFine)
 		r.Probe("content.fine-queries")
 		if wl.TokYield > 0 {
@@ -875,8 +918,8 @@ func (st *contentState) checkPruning(qr *queryRun, q *bs.Query, calls []Call, ce
 	if q != nil {
 		pf, bloom, regex = q.Prefilter, q.Bloom, q.Regex
 	}
-	// Only the bloom expression is held against the filters ("absent filter cannot disqualify");
-	// the regex field guard is an engine-side optimisation the statement does not demand.
+	// Files are held against the bloom expression only ("absent filter cannot disqualify"); blocks
+	// also against the regex field-existence guard (see below).
 	hasBloom := bloom != nil && bloom.Expression != nil
 	noConds := !hasBloom && (regex == nil || regex.Expression == nil)
 	hasConds := hasBloom
@@ -931,6 +974,11 @@ func (st *contentState) checkPruning(qr *queryRun, q *bs.Query, calls []Call, ce
 						r.Violate("C24", "prefiltered-block-read", "query %s read [%d,%d) of %s, inside block@%d which its prefilter rejects", qr.Tag, lo, hi, fv.Ptr, bv.Meta.RowDataOffset)
 					} else if hasConds && bv.Filters != nil && !prune(bv.Filters) {
 						r.Violate("C24", "bloom-pruned-block-read", "query %s = %s read [%d,%d) of %s, inside block@%d which its block filters rule out", qr.Tag, describeQuery(q), lo, hi, fv.Ptr, bv.Meta.RowDataOffset)
+					} else if regex != nil && regex.Expression != nil && bv.Filters != nil && !regexGuardMay(regex.Expression, bv.Filters) {
+						// Block level: the block's field filter excludes a field a regex condition
+						// needs, so no row of the block can match (the documented field-existence
+						// guard). File level stays with the bloom expression, as the statement has it.
+						r.Violate("C24", "regex-guard-pruned-block-read", "query %s = %s read [%d,%d) of %s, inside block@%d whose field filter rules out a field its regex needs", qr.Tag, describeQuery(q), lo, hi, fv.Ptr, bv.Meta.RowDataOffset)
 					}
 				}
 			}
@@ -1008,7 +1056,7 @@ func regexGuardMay(e *bs.RegexExpression, f *bs.BloomFilters) bool {
 		return f.FieldBloomFilter == nil || f.FieldBloomFilter.TestString(e.Condition.Field)
 	case bs.RegexExpressionOr:
 		if len(e.Children) == 0 {
-			return false
+			return true // an empty OR matches nothing; whether the engine still reads is not demanded here
 		}
 		for i := range e.Children {
 			if regexGuardMay(&e.Children[i], f) {
